@@ -243,7 +243,7 @@ def handle (args : List String) : String :=
     match parseCase ts with
     | none => "bad-case"
     | some c =>
-      let (st, g') := foldGraph c.ctx c.info c.g
+      let (st, g') := if c.ctx.isFunction then foldFunction c.ctx c.info c.g else foldGraph c.ctx c.info c.g
       " ".intercalate (
         ["OK", "mod=" ++ (if st.modified then "1" else "0"),
          "err=" ++ (match st.err with | some e => sanitize e | none => "-"),
